@@ -775,6 +775,31 @@ def overwrite(D, X):
     return D
 
 
+def scribble(det):
+    """overwrite, in place, what an earlier call left in the public `scores` attribute (users post-process these frames);
+    a later call must not be built on arrays that alias them"""
+    import numpy as np
+    import pandas as pd
+
+    sc = getattr(det, "scores", None)
+    try:
+        if isinstance(sc, pd.DataFrame):
+            for col in sc.columns:
+                if np.issubdtype(sc[col].dtype, np.number):
+                    sc[col] += 7
+                    v = sc[col].to_numpy()
+                    if v.flags.writeable:
+                        v += 7
+        elif isinstance(sc, pd.Series):
+            v = sc.to_numpy()
+            if v.flags.writeable:
+                v += 7
+        elif isinstance(sc, np.ndarray):
+            sc += 7
+    except Exception:
+        pass
+
+
 def prior_use(det, case, X, data=None):
     """before the judged calls, use the fitted detector on OTHER data with the same shape and index (a result cached under
     the index of the previous call would then be returned for the wrong data); kind "same-object": the other data live in
@@ -786,6 +811,7 @@ def prior_use(det, case, X, data=None):
     if kind == "same-object":
         D = wrap_container(case, (X[::-1] * 2.0 + 1.0).copy())
         det.predict(D)
+        scribble(det)
         return overwrite(D, X)
     if kind:
         X0 = wrap_container(case, X[::-1] * 2.0 + 1.0)
@@ -793,4 +819,5 @@ def prior_use(det, case, X, data=None):
             det.predict(X0) if kind == "predict" else det.transform_scores(X0)
         except NotImplementedError:  # detectors without per-sample scores
             det.predict(X0)
+        scribble(det)
     return data
